@@ -407,6 +407,15 @@ func NewManager(
 		m.daIncludedHeight.Store(binary.LittleEndian.Uint64(height))
 	}
 
+	// Heights below the initial height do not exist: they are neither pending DA submission nor waiting for
+	// DA inclusion. Without this a chain starting above height 1 would count phantom pending items, fail to
+	// fetch height 1 for submission and never advance its DA included height.
+	if base := genesis.InitialHeight - 1; genesis.InitialHeight > 1 {
+		m.pendingHeaders.base.lastHeight.CompareAndSwap(0, base)
+		m.pendingData.base.lastHeight.CompareAndSwap(0, base)
+		m.daIncludedHeight.CompareAndSwap(0, base)
+	}
+
 	// Set the default publishBlock implementation
 	m.publishBlock = m.publishBlockInternal
 
